@@ -47,6 +47,15 @@ func corrRest(seed uint64, n int, t tools, id *int) {
 			}
 			fmt.Fprintf(out, "R\tr%d\t%d\t%s\t%s\n", *id, d, structureOf(fs, res.input), obs)
 			*id++
+			if res.class == "ok" {
+				// the DECODED output segments vs resegment -> write_segment -> read_back of the model
+				tid := fs.trackID
+				if tid == 0 {
+					tid = 1
+				}
+				fmt.Fprintf(out, "V\tv%d\t%d\t%d\t%s\t%s\n", *id, d, tid, dataSamples(res.input), decodedPieces(res.segs))
+				*id++
+			}
 		}
 	}
 	for i := 0; i < 2*n; i++ {
@@ -66,6 +75,18 @@ func corrRest(seed uint64, n int, t tools, id *int) {
 		}
 		fmt.Fprintf(out, "F\tf%d\t%d\t%s\t%s\n", *id, dur, strings.Join(fr, "|"), obs)
 		*id++
+		if res.class == "ok" {
+			tid := fs.trackID
+			if tid == 0 {
+				tid = 1
+			}
+			fd := make([]string, len(res.in))
+			for k, f := range res.in {
+				fd[k] = dataSamples(f)
+			}
+			fmt.Fprintf(out, "Y\ty%d\t%d\t%d\t%s\t%s\n", *id, dur, tid, strings.Join(fd, "|"), decodedPieces(res.out))
+			*id++
+		}
 	}
 	for i := 0; i < 4*n; i++ {
 		emitAddCase(r, id)
@@ -85,6 +106,38 @@ func corrRest(seed uint64, n int, t tools, id *int) {
 			*id++
 		}
 	}
+}
+
+// dataSamples: dts:dur:cto:flags:<data hex>/...   ("-" for no samples)
+func dataSamples(ss []flat) string {
+	if len(ss) == 0 {
+		return "-"
+	}
+	p := make([]string, len(ss))
+	for i, s := range ss {
+		p[i] = fmt.Sprintf("%d:%d:%d:%d:%s", s.dts, s.dur, s.cto, s.flags, hx.Hex(s.data))
+	}
+	return strings.Join(p, "/")
+}
+
+// decodedPieces: per output piece the decoded samples as in W lines; pieces joined by "+", an empty piece is "e"
+func decodedPieces(segs [][]flat) string {
+	if len(segs) == 0 {
+		return "-"
+	}
+	p := make([]string, len(segs))
+	for i, seg := range segs {
+		if len(seg) == 0 {
+			p[i] = "e"
+			continue
+		}
+		q := make([]string, len(seg))
+		for k, s := range seg {
+			q[k] = flatString(s)
+		}
+		p[i] = strings.Join(q, ",")
+	}
+	return strings.Join(p, "+")
 }
 
 func dtsList(ss []flat) string {
